@@ -32,7 +32,8 @@ EXTENDS Integers, Sequences, FiniteSets, TLC
 CONSTANTS Addr, Key,        \* universes used by Next only (the operators below work on any address / key)
           BalV, EnV, MsV, CdV, StV,   \* value alphabets used by Next only; EnV is a set of <<energy, blockTime>>
           LogV, RefV, SuiV,           \* statedb side journal: log ids, refund increments, addresses Suicide is tried on
-          MaxOps, MaxDepth, MaxCommits
+          MaxOps, MaxDepth, MaxCommits,
+          StageFolds                  \* FALSE.  TRUE only in the teeth config: Stage writes into the tries the State reads from
 
 VARIABLES base,       \* canonical content of the opened root: partial function addr -> Account
           stack,      \* Seq of levels [acc, st, bar]  (partial functions)
@@ -208,10 +209,20 @@ RevertTo(r) ==
   /\ side' = SideCut(side, r)
   /\ Keep /\ Tick
 
-\* Stage does not change the State; the result is the root (= content)
+\* Stage does not change the State - at ANY point of a history, also in the middle of nested checkpoints: it works on
+\* copies of the account trie and of the storage tries the State reads from; the result is the root (= content).
+\* FoldedBase is what the State would read from afterwards if Stage applied the journalled storage writes to the opened
+\* storage tries themselves (no copy): a later RevertTo could not undo them.  Used by the teeth config only.
+FoldedBase(b, stk) ==
+  [a \in DOMAIN b |->
+     IF b[a].sw /\ Barrier(stk, a) = 0 /\ Written(stk, a) # {} /\ ~IsEmpty(ReadMeta(b, stk, a))
+     THEN [b[a] EXCEPT !.st = NonZero([k \in (DOMAIN b[a].st) \cup Written(stk, a) |->
+                                       IF k \in Written(stk, a) THEN ReadSt(b, stk, a, k) ELSE b[a].st[k]])]
+     ELSE b[a]]
 Stage ==
   /\ staged' = StagedAs(StageOp(base, stack))
-  /\ UNCHANGED <<base, stack, shadow, committed, side>> /\ Tick
+  /\ base' = IF StageFolds THEN FoldedBase(base, stack) ELSE base
+  /\ UNCHANGED <<stack, shadow, committed, side>> /\ Tick
 Commit ==
   /\ staged.ok
   /\ committed' = Append(committed, staged.c)
